@@ -75,7 +75,36 @@ fn contradicts(l: &DSol, f: &DSol) -> Option<&'static str> {
 
 pub fn run_c11(rep: &Report) -> i32 {
     let thorough = rep.is_thorough();
-    let corpora = core_corpora(thorough, 1);
+    let mut corpora = core_corpora(thorough, 1);
+    // multi-answer programs: three ground impls of T0 in EVERY order (the SLG solver merges answers
+    // one by one, so an interruption between the k-th and (k+1)-th answer is order sensitive)
+    {
+        use crate::gen::{a, at, b, s};
+        let heads = [a(), b(), s(a()), s(b()), s(s(a()))];
+        let mut programs = vec![];
+        for i in 0..heads.len() {
+            for j in 0..heads.len() {
+                for k in 0..heads.len() {
+                    if i == j || j == k || i == k {
+                        continue;
+                    }
+                    programs.push(Program {
+                        structs: vec![
+                            StructDecl { name: "A".into(), arity: 0 },
+                            StructDecl { name: "B".into(), arity: 0 },
+                            StructDecl { name: "S".into(), arity: 1 },
+                        ],
+                        traits: vec![
+                            TraitDecl { name: "T0".into(), arity: 0, coinductive: false },
+                            TraitDecl { name: "T1".into(), arity: 0, coinductive: false },
+                        ],
+                        impls: [i, j, k].iter().map(|h| Rule { nvars: 0, head: at(heads[*h].clone(), "T0"), body: vec![] }).collect(),
+                    });
+                }
+            }
+        }
+        corpora.push(Corpus { frag: "f1multi", programs, goals: gen::goals_f1a(false) });
+    }
     let max_n = if thorough { 60 } else { 16 };
     let cfgs = [SolverCfg::SLG, SolverCfg::REC, SolverCfg::REC_NOCACHE];
     for_each_program(rep, &corpora, |pc, goals| {
@@ -147,6 +176,31 @@ pub fn run_c11(rep: &Report) -> i32 {
                             Caught::Ok(l) => {
                                 if l != &full {
                                     *local.entry("interrupted_results_weaker_than_full".into()).or_insert(0) += 1;
+                                }
+                                // definite guidance produced by an interrupted solve is a claim of its own
+                                // ("every solution has this shape"): it must not exclude a solution,
+                                // whatever the (possibly weaker) full answer says
+                                if let (DSol::Definite(_), true) = (l, l != &full) {
+                                    let ac = crate::oracle::AnswerCheck {
+                                        refm: &pc.refm,
+                                        pa: &g.pa,
+                                        peeled: &g.peeled,
+                                        depth: 3,
+                                        solver: cfg.short(),
+                                        class: pc.class,
+                                    };
+                                    for is in ac.check(l).0 {
+                                        rep.violation(Violation {
+                                            property: "C11".into(),
+                                            kind: format!("limited-{}", is.kind),
+                                            site: is.site.clone(),
+                                            what: format!(
+                                                "{} `{}` interrupted by {}: {:?} (full answer {:?}) :: {}",
+                                                cfg.name(), g.text, s.name(), l, full, is.detail
+                                            ),
+                                            input: input(),
+                                        });
+                                    }
                                 }
                                 if let Some(kind) = contradicts(l, &full) {
                                     rep.violation(Violation {
